@@ -96,6 +96,11 @@ pub struct Spec {
     /// generic code resolves them (always the trait implementation); see `gens::set_call_generic`
     #[serde(default)]
     pub generic: bool,
+    /// ambient thread context in which Debug texts are produced (C17, C14): 0 = plain, 1 = additionally
+    /// while the thread is unwinding from an unrelated (harness-raised) panic, 2 = additionally on
+    /// another thread
+    #[serde(default)]
+    pub ctx: u8,
 }
 
 #[derive(Clone, Debug, PartialEq)]
